@@ -35,6 +35,7 @@ func (c *Calcium) doReallocOnNode(ctx context.Context, node *types.Node, workloa
 	var deltaResources resourcetypes.Resources
 	var engineParams resourcetypes.Resources
 	var err error
+	metaUpdated := false
 
 	logger := log.WithFunc("calcium.doReallocOnNode").WithField("opts", opts)
 	err = utils.Txn(
@@ -59,6 +60,7 @@ func (c *Calcium) doReallocOnNode(ctx context.Context, node *types.Node, workloa
 			if err := c.store.UpdateWorkload(ctx, workload); err != nil {
 				return err
 			}
+			metaUpdated = true
 			return node.Engine.VirtualizationUpdateResource(ctx, opts.ID, engineParams)
 		},
 		// rollback: revert the resource changes and rollback workload meta
@@ -69,6 +71,10 @@ func (c *Calcium) doReallocOnNode(ctx context.Context, node *types.Node, workloa
 			if err := c.rmgr.RollbackRealloc(ctx, workload.Nodename, deltaResources); err != nil {
 				logger.Errorf(ctx, err, "failed to rollback workload %+v, resource args %+v, engine args %+v", workload.ID, litter.Sdump(resources), litter.Sdump(engineParams))
 				// don't return here, so the node resource can still be fixed
+			}
+			if !metaUpdated {
+				// the meta update itself failed: the stored workload is still the original one
+				return nil
 			}
 			return c.store.UpdateWorkload(ctx, &originWorkload)
 		},
